@@ -168,7 +168,7 @@ def extract_ops(effects, direction):
                     ops.extend(sw)
                     continue
                 ops.append({"op": "bin", "dir": "w" if m == "fwrite" else "r", "ptr": x["args"][0],
-                            "size": x["args"][1], "l": x["l"]})
+                            "size": x["args"][1], "l": x["l"], "eff_id": id(x)})
             elif rec in STREAM_RECORDS and x.get("kind") != "construct" and not m.startswith("~"):
                 ops.append({"op": "raw", "method": m, "args": x["args"], "l": x["l"]})
             elif rec == PROPS_RECORD:
@@ -640,3 +640,28 @@ def immutable_int_fields(v):
                     continue
                 written_outside.add((tgt.get("record"), tgt["field"]))
     return all_int - written_outside
+
+
+def mismatch_is_fatal(seq, i):
+    """seq = list(flat(effects)), seq[i] an `if` comparing a value read from the stream with what is expected (== or !=).
+    True when the path taken on a mismatch ends the process: the mismatch branch exits, or the match branch leaves (return)
+    and the statements that follow the test run straight into a no-return call."""
+    x = seq[i]
+    c = x["cond"]
+    if c[0] != "op" or c[1] not in ("==", "!="):
+        return False
+    mis_status = x.get("then_status") if c[1] == "!=" else x.get("else_status")
+    match_status = x.get("else_status") if c[1] == "!=" else x.get("then_status")
+    if mis_status == "exit":
+        return True
+    if mis_status == "fall" and match_status in ("return", "continue", "break"):
+        nested = len(list(flat(x["then"]))) + len(list(flat(x["else"])))
+        for y in seq[i + 1 + nested:]:
+            if y["e"] == "exit":
+                return True
+            if y["e"] == "call" and y.get("noreturn"):
+                continue
+            if y["e"] in ("local",):
+                continue
+            return False
+    return False
